@@ -3,7 +3,7 @@ import os, json, hashlib, collections, re
 import gen as G, run as R, trace as T
 
 VERIF = "/verif"
-SIZES = {"b1": 1, "w4": 4, "p4": 4, "s16": 16, "a32": 32, "big": 2048, "a16": 16}
+SIZES = {"b1": 1, "p1": 1, "w4": 4, "p4": 4, "s16": 16, "a32": 32, "big": 2048, "a16": 16}
 
 def corpus(mode, pid=None):
     """minimised past disagreements and every defect found on the pinned tree; run first"""
@@ -117,6 +117,47 @@ def panic_prefix_oracle(ops, text):
                 return [("panic-prefix", i, "`%s` interrupted by a panic in its callback no. %d: Vec keeps the %d elements produced before it; got %s want %s" % (op.line, k, k - 1, got, want))]
             return []
     return []
+
+def iter_drop_oracle(ops, mops):
+    """C10's last clause judged on the implementation's own trace: after `drop it` of a Drain or of a Splice with an honest
+    replacement (no None, no hint) the vector is the untouched prefix, then the replacement, then the untouched suffix.
+    Applied where the model's outcome of the same operation satisfies the clause (a reachable case the clause applies to:
+    also when the drop unwinds because a destructor of an element still in the range panicked)."""
+    out = []
+    live = {}
+    for i, op in enumerate(ops):
+        a = op.args
+        if op.name in ("drain", "splice") and op.result == "ok" and len(a) >= 4:
+            (before, _) = T.state_before(ops, i, a[0])
+            if before is None or ">" in a[1] or ">" in a[2]:
+                continue
+            r = T.resolve_range(a[1], a[2], before[0])
+            if r is None:
+                continue
+            vals = []
+            if op.name == "splice":
+                fill = a[3]
+                if not (fill.startswith("it[") and fill.endswith("]")):
+                    continue
+                vals = [x for x in fill[3:-1].split(",") if x]
+                if "N" in vals:
+                    continue
+            live[a[-1]] = (a[0], r[0], r[1], before[2], vals)
+        elif op.name == "forget" and a and a[0] in live:
+            live.pop(a[0])
+        elif op.name == "drop" and a and a[0] in live and op.result in ("ok", "panic"):
+            vreg, st, en, items, vals = live.pop(a[0])
+            after = op.S.get(vreg)
+            mafter = mops[i].S.get(vreg) if i < len(mops) and mops[i].line == op.line else None
+            pre, suf = items[:st], items[en:]
+            def holds(S):
+                got = S[2]
+                return (len(got) == len(pre) + len(vals) + len(suf) and got[:st] == pre and got[len(got) - len(suf):] == suf
+                        and [x.split(":")[1] for x in got[st:st + len(vals)]] == vals)
+            if after is not None and mafter is not None and holds(mafter) and not holds(after):
+                out.append(("iter-drop-outcome", i, "after `%s` (%s) %s is %s: not the untouched prefix %s, the replacement %s, the untouched suffix %s" % (
+                    op.line, op.result, vreg, after[2], pre, vals, suf)))
+    return out
 
 def views_cases(mode):
     """the borrowed views (Deref, AsRef, Borrow, Index, as_slice, &v / &mut v iteration, Cow) after every single
@@ -246,6 +287,16 @@ CALLBACK_SEQS = [
     ["splice v0 I1 E4 it[7] it", "drop it"], ["splice v0 I1 E4 it[7,8,9,10,11] it", "next it", "drop it"], ["splice v0 I0 E3 it[7,8] it", "next_back it", "drop it"],
     ["drain_filter v0 seqTTTFT it", "drop it"], ["drain_filter v0 seqFTTTF it", "drop it"], ["drain_filter v0 seqTFTTT it", "next it", "drop it"],
     ["retain v0 seqTFTTF"], ["retain v0 seqFTTFT"], ["dedup_by v0 seqFFTFT"],
+    # the provided iterator methods (internal iteration: fold / count / nth and whatever overrides them) and clone_from
+    ["drain v0 I0 E3 it", "nth it 1", "drop it"], ["drain v0 U U it", "count it"], ["drain v0 I1 U it", "next it", "count it"],
+    ["drain v0 I0 E4 it", "nth_back it 1", "drop it"],
+    ["into_iter v0 it", "nth it 1", "drop it"], ["into_iter v0 it", "count it"], ["into_iter v0 it", "nth_back it 1", "drop it"],
+    ["into_iter v0 it", "next it", "nth it 2", "drop it"],
+    ["splice v0 I0 E2 it[7] it", "count it"], ["splice v0 I1 E4 it[7,8] it", "nth it 1", "drop it"],
+    ["drain_filter v0 seqTTFT it", "count it"], ["drain_filter v0 seqTTTT it", "nth it 1", "drop it"],
+    ["macro_list c 40 41 42", "clone_from v0 c", "drop c"], ["macro_list c 40", "clone_from v0 c", "drop c"],
+    ["macro_list c 40 41 42 43 44 45 46 47 48", "clone_from v0 c", "drop c"],
+    ["into_iter v0 it", "macro_list c 1 2 3", "into_iter c j", "clone_from_iter it j", "drop j", "drop it"],
 ]
 
 def panic_sweep(tier, seed, mode):
@@ -475,6 +526,62 @@ def lying_hint_cases(mode):
                     out.append(G.case("lh-%s-%s-%d" % (cls, label, k), cls, mode, pre + ["extend v0 %s%s" % (fill, h), "collect c %s%s" % (fill, h), "push v0 77"])); k += 1
     return out
 
+def grow_with_tail_cases(mode):
+    """operations that have to move the block while they hold a position inside it: a Splice whose replacement is longer
+    than the range, with a tail behind the range and no spare capacity; insert / extend_from_within / append into a full
+    vector (the checking allocator never resizes in place and overwrites what it retires: an address computed before
+    the request reads the fill pattern afterwards)"""
+    out = []
+    k = 0
+    for cls in ("w4", "s16", "a32"):
+        for n in (2, 4, 5, 8):
+            pre = ["macro_list v0 " + " ".join(str(i + 1) for i in range(n)), "shrink_to_fit v0"]
+            for fill in ("it[7,8,9]", "it[7,8,9,10,11,12,13,14,15]", "it[7,8]h0-0", "it[7,8,9,10]h9-9"):
+                for b1, b2 in (("I0", "E1"), ("I1", "E1"), ("I0", "E0"), ("I1", "E2")):
+                    for steps in ([], ["next it"], ["next_back it"]):
+                        out.append(G.case("gt-%s-%d" % (cls, k), cls, mode, pre + ["splice v0 %s %s %s it" % (b1, b2, fill)] + steps + ["drop it", "push v0 77", "pop v0"])); k += 1
+            for op in ("insert v0 0 9", "insert v0 1 9", "extend_from_within v0 U U", "extend_from_within v0 I0 E1", "resize v0 %d 3" % (2 * n + 1), "extend_from_slice v0 7 8 9"):
+                out.append(G.case("gt-%s-%d" % (cls, k), cls, mode, pre + [op, "push v0 77", "pop v0"])); k += 1
+            out.append(G.case("gt-%s-%d" % (cls, k), cls, mode, pre + ["macro_list c 7 8 9", "append v0 c", "push v0 77", "drop c"])); k += 1
+    return out
+
+def mixed_alignment_cases(mode):
+    """two-vector operations between vectors of DIFFERENT alignments (one made by with_alignment, the other not, or
+    with another value), in both directions and for every relation between the lengths and the capacities: whatever
+    block ends up in the destination is resized and released with its own layout"""
+    out = []
+    k = 0
+    mk = {"plain3": ["macro_list %s 1 2 3"], "plain9": ["macro_list %s 1 2 3 4 5 6 7 8 9"], "empty": ["new %s"], "cap16": ["with_capacity %s 16", "push %s 1"],
+          "al32": ["with_alignment %s 4 32", "push %s 1", "push %s 2"], "al64full": ["with_alignment %s 2 64", "push %s 1", "push %s 2"],
+          "al16empty": ["with_alignment %s 0 16"], "al128big": ["with_alignment %s 12 128", "extend %s it[1,2,3,4,5,6,7,8,9,10]"]}
+    for cls in ("w4", "s16", "p4"):
+        for da, db in (("al32", "plain3"), ("al32", "plain9"), ("plain3", "al32"), ("plain9", "al64full"), ("empty", "al128big"), ("al16empty", "plain9"),
+                       ("al64full", "al128big"), ("al128big", "al32"), ("cap16", "al128big"), ("al64full", "empty"), ("al32", "cap16")):
+            for op in (["clone_from a b"], ["append a b"], ["clone_from a b", "push a 7", "clone_from b a"], ["extend_from_slice a 7 8 9 10 11 12 13 14 15", "clone_from a b"]):
+                pre = [l % "a" for l in mk[da]] + [l % "b" for l in mk[db]]
+                out.append(G.case("mx-%s-%d" % (cls, k), cls, mode, pre + op + ["push a 77", "reserve a 20", "shrink_to_fit a", "push b 78", "drop a", "drop b"])); k += 1
+    return out
+
+def iter_drop_panic_cases(mode):
+    """an iterator dropped while a destructor of an element still inside its range panics: the vector is still the
+    untouched prefix, then the replacement / the retained elements, then the untouched suffix"""
+    out = []
+    k = 0
+    seqs = [["drain v0 I1 E3 it", "drop it"], ["drain v0 I0 E3 it", "next it", "drop it"], ["drain v0 I1 E4 it", "next_back it", "drop it"],
+            ["splice v0 I1 E3 it[7,8] it", "drop it"], ["splice v0 I1 E4 it[7] it", "drop it"], ["splice v0 I1 E3 it[7,8,9,10,11] it", "drop it"],
+            ["splice v0 I0 E3 it[7,8] it", "next it", "drop it"], ["splice v0 I1 E4 it[7,8,9] it", "next_back it", "drop it"],
+            ["drain_filter v0 seqTTFTT it", "drop it"], ["drain_filter v0 seqFTTFT it", "next it", "drop it"],
+            ["into_iter v0 it", "next it", "drop it"]]
+    for cls in ("w4", "s16"):
+        for label, pre in G.start_states(cls):
+            if label not in ("part", "full", "over64", "dups"):
+                continue
+            for seq in seqs:
+                for kk in range(1, 7):
+                    out.append(G.case("idp-%s-%s-%d-p%d" % (cls, label, k, kk), cls, mode, pre + list(seq) + ["push v0 77", "pop v0"], ["!panic_at %d" % kk]))
+                k += 1
+    return out
+
 def raw_natural_cases(mode):
     """raw-parts round trips of buffers with the element type's natural alignment (the over-aligned ones are C14's)"""
     out = []
@@ -508,6 +615,20 @@ def hostile_cases(tier, seed, mode):
                 out.append(G.case("hp-%s-%s-%d" % (cls, label, k), cls, mode, pre + ["retain v0 %s" % p, "dedup_by v0 %s" % p, "drain_filter v0 %s it" % p, "next it", "drop it"], ["!vecdiff off"])); k += 1
             for es in ("T", "F", "TF", "FT", "TTFF", "FTFT"):
                 out.append(G.case("he-%s-%s-%d" % (cls, label, k), cls, mode, pre + ["dedup v0", "remove_item v0 2", "compare v0 v0"], ["!vecdiff off", "!eq_script " + es])); k += 1
+    # a RangeBounds implementation whose answers change between calls (`I1>I5`: first call I1, later calls I5): whichever
+    # answers the operation goes by, it must validate the ones it uses
+    rgs = [("I1>I5", "E3>E2"), ("I1", "E3>E9"), ("I0>I4", "E2>E1"), ("I2>I0", "E4>E6"), ("U", "E2>E99"), ("I1>I3", "I2>I0"), ("E0>E5", "U"),
+           ("I1>I1>I6", "E3>E3>E0"), ("I0", "E1>E0"), ("I3>I0", "E3"), ("I1>I2", "E3>E4")]
+    for cls in ("w4", "s16", "b1"):
+        for label, pre in G.start_states(cls)[:6]:
+            for a, b in rgs:
+                out.append(G.case("hrg-%s-%s-%d" % (cls, label, k), cls, mode, pre + ["splice v0 %s %s it[7,8] it" % (a, b), "drop it", "push v0 1", "drain v0 %s %s j" % (a, b), "next j", "drop j",
+                                                                                  "extend_from_within v0 %s %s" % (a, b), "pop v0"], ["!vecdiff off"])); k += 1
+    # a SeqAccess whose size_hint is wrong in either direction (serde is user code too)
+    for cls in ("w4", "s16"):
+        for sq in ("sq[1,2,3,4,5,6,7,8,9,10,11,12,13,14,15,16,17,18,19]", "sq[1,2,3]", "sq[]"):
+            for h in ("N", "0", "1", "2", "5", "19", "40", "1024"):
+                out.append(G.case("hsd-%s-%d" % (cls, k), cls, mode, ["deserialize v0 %s %s" % (h, sq), "push v0 5", "macro_list w 1 2 3", "deserialize_in_place w %s %s" % (h, sq), "push w 5"], ["!vecdiff off"])); k += 1
     n = 300 if tier == "quick" else 3000
     for i in range(n):
         cls = G.CLASSES[i % len(G.CLASSES)]
@@ -515,14 +636,15 @@ def hostile_cases(tier, seed, mode):
     return out
 
 def clone_glue_cases(mode):
-    """every operation that must go through the element's Clone, on the element class without drop glue (p4: Clone but
-    not Copy; a bitwise copy instead of a clone shows as the same identity twice) and on one with a destructor"""
+    """every operation that must go through the element's Clone, on the element classes without drop glue (p4 and the
+    one-byte p1: Clone but not Copy; a bitwise copy or a memset instead of a clone shows as the same identity twice) and
+    on one with a destructor"""
     out = []
     k = 0
     ops = [["extend_from_slice v0 7 8 9"], ["extend_from_slice v0 7"], ["clone v0 c", "push c 1"], ["resize v0 9 4"], ["from_slice c 1 2 3", "append v0 c"],
            ["from_mut_slice c 4 5 6", "push c 1"], ["extend_from_within v0 U U"], ["extend_from_within v0 I0 E1"], ["macro_repeat c 7 4", "append v0 c"],
            ["macro_list c 5 6 7 8 9 1 2", "clone_from v0 c"], ["macro_list c 5", "clone_from v0 c"], ["into_iter v0 it", "clone_iter it j", "drop j", "drop it"]]
-    for cls in ("p4", "w4"):
+    for cls in ("p4", "w4", "p1"):
         for label, pre in G.start_states(cls):
             for seq in ops:
                 out.append(G.case("cg-%s-%s-%d" % (cls, label, k), cls, mode, pre + list(seq) + ["push v0 3", "pop v0"])); k += 1
@@ -687,18 +809,18 @@ PROPS = {
             "cases": lambda tier, seed: [(m, c + views_cases(m) + panic_prefix_cases(m) + clone_glue_cases(m)) for m, c in general(tier, seed, "C01")] + [("release", boundary_grid("release") + views_cases("release"))],
             "owned_oracles": ["O vec-mismatch", "O view-mismatch", "O ledger duplicate-id", "O ledger bitwise-copy", "panic-prefix", "macro-evals", "X signal"], "owned_diffs": ["result", "contents", "panic", "crash"],
             "partial_missing": ["refinement to Vec semantics proved for every history over push, pop, insert, remove, swap_remove, truncate, clear, retain (any predicate), reserve, reserve_exact, shrink_to, shrink_to_fit (C01_refines_vec_partial); separately proved value-for-value: extend_from_slice, resize, resize_with (any generator) (C01Loops), From<&[T]> (C01_from_slice_partial), clone, extend/collect, dedup*, Drain, IntoIter, DrainFilter (any predicate); append, split_off, drain_vec, mini_vec![a, b, c], splice (any replacement iterator), extend_from_within, remove_item (any equality), mini_vec![e; n], clone_from; C01_histories_partial composes them over EVERY history of 25 operation kinds incl. the three borrowing iterators created, stepped and dropped; From<&str>, Cow, the Borrow/AsRef/Deref/Index views are tied to Vec and to the model by the correspondence only (views oracle)"]},
-    "C02": {"modules": ["MiniVecProof.Props.C02", "MiniVecProof.Props.C10", "MiniVecProof.Props.C10IntoIter", "MiniVecProof.Props.C10DrainFilter"],
+    "C02": {"modules": ["MiniVecProof.Props.C02", "MiniVecProof.Props.C02Histories", "MiniVecProof.Props.C10", "MiniVecProof.Props.C10IntoIter", "MiniVecProof.Props.C10DrainFilter"],
             "cases": lambda tier, seed: [(m, c + raw_natural_cases(m) + serde_error_cases(m)) for m, c in general(tier, seed, "C02")],
-            "owned_oracles": ["O ledger", "X signal"], "owned_diffs": ["own", "crash"],
-            "partial_missing": ["exactly-once destruction and conservation proved for every completed history over the 12 operations of POp (incl. retain with any predicate) followed by Drop (C02_exactly_once_partial, C02_no_double_drop, C02_no_leak); for Drain and IntoIter dropped after any interleaving of steps: yielded front ++ destroyed ++ yielded back reversed = the selected range (specSteps_partition + C10_drain_partial / C10_into_iter_partial); DrainFilter: yielded ++ destroyed = accepted, vector = rejected (C10_drain_filter_partial); Splice and the remaining operations by correspondence + per-element ledger"]},
+            "owned_oracles": ["O ledger", "O view-mismatch", "X signal"], "owned_diffs": ["own", "crash"],
+            "partial_missing": ["exactly-once destruction and conservation proved for every completed history over the 12 operations of POp (incl. retain with any predicate) followed by Drop (C02_exactly_once_partial, C02_no_double_drop, C02_no_leak); for Drain and IntoIter dropped after any interleaving of steps: yielded front ++ destroyed ++ yielded back reversed = the selected range (specSteps_partition + C10_drain_partial / C10_into_iter_partial); DrainFilter: yielded ++ destroyed = accepted, vector = rejected (C10_drain_filter_partial); C02_histories_partial / C02_histories_into_iter_partial: EVERY completed history over the base operations, extend (any source), dedup / dedup_by / dedup_by_key (any relation), drain(range) with any steps then drop, drain_filter(pred) with any steps then drop, ended by dropping the vector or by into_iter() with any steps then drop: one destructor event per element of `dropped`, and dropped ++ everything yielded or returned is a rearrangement of the starting contents ++ everything handed in; the cloning operations, resize_with, remove_item and Splice by correspondence + per-element ledger"]},
     "C03": {"modules": ["MiniVecProof.Props.C01", "MiniVecProof.Proofs.MemDrop", "MiniVecProof.Props.C09", "MiniVecProof.Props.C03World"],
-            "cases": lambda tier, seed: [(m, c + huge_cases(m) + raw_natural_cases(m)) for m, c in general(tier, seed, "C03", modes=("debug", "release"))],
+            "cases": lambda tier, seed: [(m, c + huge_cases(m) + raw_natural_cases(m) + extend_ref_cases(m) + lying_hint_cases(m) + grow_with_tail_cases(m) + mixed_alignment_cases(m)) for m, c in general(tier, seed, "C03", modes=("debug", "release"))],
             "owned_oracles": ["O alloc", "O cap"], "owned_diffs": ["alloc", "ub", "crash"],
-            "partial_missing": ["layout quoting proved for grow (every caller), Drop and IntoIter::drop; C03_world_histories_partial: for every history of 56 operations of the register machine on any number of registers (all four iterators alive across other operations, two-vector operations, serde, raw round trips) every register stays well formed and no step is an illegal access, a failed assertion or a hang (non-panicking callbacks); not in that theorem: with_alignment, compare, spare/split_spare, from_str, extend_ref, count, clone_from_iter: correspondence + checking allocator"]},
-    "C04": {"modules": ["MiniVecProof.Props.C04", "MiniVecProof.Props.C04Drain", "MiniVecProof.Props.C04IntoIter", "MiniVecProof.Props.C04DrainFilter", "MiniVecProof.Props.C01"],
+            "partial_missing": ["layout quoting proved for grow (every caller), Drop and IntoIter::drop; C03_world_all_histories: for EVERY finite sequence of protocol operations of the register machine on any number of registers (every constructor of Op: all four iterators alive across other operations, two-vector operations, serde, raw round trips, spare capacity, count) every register stays well formed and no step is an illegal access, a failed assertion or a hang (non-panicking callbacks); the theorem is about the model, tied to the code by the correspondence + checking allocator"]},
+    "C04": {"modules": ["MiniVecProof.Props.C04", "MiniVecProof.Props.C04Drain", "MiniVecProof.Props.C04IntoIter", "MiniVecProof.Props.C04DrainFilter", "MiniVecProof.Props.C04Loops", "MiniVecProof.Props.C01"],
             "cases": lambda tier, seed: [("debug", corpus("debug", "C04") + panic_sweep(tier, seed, "debug") + panic_prefix_cases("debug"))],
             "owned_oracles": ["O ledger", "O alloc", "X signal", "panic-prefix"], "owned_diffs": ["own", "contents", "result", "panic", "alloc", "ub", "crash"],
-            "partial_missing": ["proved under an ARBITRARY panic oracle (any subset of the callbacks may panic): truncate, clear (C04_truncate_partial, C04_clear_partial: length cut before the first destructor, every doomed element destroyed once unless the double-panic abort) and retain with a panicking predicate or destructor (C04_retain_partial: what is exposed plus what was destroyed is a rearrangement of the contents); drop_in_place semantics dropAll_any; the drop guard of Drain (C04_drain_drop_partial: a destructor panic while the Drain is dropped — the guard destroys the rest and moves the tail back, a second panic is the abort) and Drop for IntoIter (C04_into_iter_drop_partial); DrainFilter::next with a panicking predicate at any point of the scan (C04_drain_filter_partial: the guard moves the unscanned rest back, the vector exposes kept ++ unscanned and nothing was destroyed); dropping a DrainFilter with any predicate call or destructor panicking (C04_drain_filter_drop_partial: never an abort, every unscanned element exposed or destroyed exactly once); every other callback site (the Splice drop guard, clone, extend, dedup_by, resize_with, serde) is decided by the exhaustive crash-point sweep of the correspondence"]},
+            "partial_missing": ["proved under an ARBITRARY panic oracle (any subset of the callbacks may panic): truncate, clear (C04_truncate_partial, C04_clear_partial: length cut before the first destructor, every doomed element destroyed once unless the double-panic abort) and retain with a panicking predicate or destructor (C04_retain_partial: what is exposed plus what was destroyed is a rearrangement of the contents); drop_in_place semantics dropAll_any; the drop guard of Drain (C04_drain_drop_partial: a destructor panic while the Drain is dropped — the guard destroys the rest and moves the tail back, a second panic is the abort) and Drop for IntoIter (C04_into_iter_drop_partial); DrainFilter::next with a panicking predicate at any point of the scan (C04_drain_filter_partial: the guard moves the unscanned rest back, the vector exposes kept ++ unscanned and nothing was destroyed); dropping a DrainFilter with any predicate call or destructor panicking (C04_drain_filter_drop_partial: never an abort, every unscanned element exposed or destroyed exactly once); extend / extend_from_slice / resize / resize_with with the callback panicking at any call (C04Loops: the elements produced so far stay), Clone for MiniVec (C12_clone_any: source untouched; C12_clone_from_any: self untouched or the new clones in place); every other callback site (the Splice drop guard, dedup_by, collect, macros, serde) is decided by the exhaustive crash-point sweep of the correspondence"]},
     "C05": {"modules": ["MiniVecProof.Props.C05", "MiniVecProof.Props.C05Iters"],
             "cases": lambda tier, seed: [("debug", corpus("debug", "C05") + forget_cases(tier, seed, "debug") + soak(tier, seed, "debug", "C05"))],
             "owned_oracles": ["O ledger", "O alloc", "X signal"], "owned_diffs": ["own", "contents", "result", "ub", "crash"],
@@ -709,7 +831,7 @@ PROPS = {
     "C07": {"modules": ["MiniVecProof.Props.C07", "MiniVecProof.Props.C07Stable", "MiniVecProof.Props.C01"],
             "cases": lambda tier, seed: [(m, c + growth_cases(m) + fit_cases(m)) for m, c in general(tier, seed, "C07", modes=("debug", "release"))],
             "owned_oracles": ["O cap", "reserve-contract", "stable", "log-resizes"], "owned_diffs": ["cap", "alloc"],
-            "partial_missing": ["stability clause proved (Props/C07Stable: same block identity, same layout, same capacity and alignment, no allocator request, no allocator event) for push, insert, extend (ANY source iterator: only what it yields counts, never its size_hint), extend_from_slice, resize, resize_with (any generator), append (destination empty or not, source roomier or not) whenever the result fits, and for pop, remove, swap_remove, truncate, clear; retain / dedup* / drain / drain_filter keep capacity and block identity in the C17 / C10 theorems; extend_from_within, splice and clone_from that fit: correspondence + the stability oracle on every adding operation at every fill level (fit_cases)"]},
+            "partial_missing": ["stability clause proved (Props/C07Stable: same block identity, same layout, same capacity and alignment, no allocator request, no allocator event) for push, insert, extend (ANY source iterator: only what it yields counts, never its size_hint), extend_from_slice, resize, resize_with (any generator), append (destination empty or not, source roomier or not) whenever the result fits, and for pop, remove, swap_remove, truncate, clear; retain / dedup* / drain / drain_filter keep capacity and block identity in the C17 / C10 theorems; spare_capacity_mut / split_at_spare_mut exact (C07_spare_exact, C07_fill_spare); extend_from_within, splice and clone_from that fit: correspondence + the stability oracle on every adding operation at every fill level (fit_cases)"]},
     "C08": {"modules": ["MiniVecProof.Props.C08"],
             "cases": lambda tier, seed: [("debug", corpus("debug", "C08") + align_cases(tier, seed, "debug")), ("release", align_cases(tier, seed, "release"))],
             "owned_oracles": ["O align", "align-req", "O alloc layout-mismatch", "with-alignment-result", "X signal"], "owned_diffs": ["alloc", "result", "ub", "crash", "panic"]},
@@ -721,9 +843,9 @@ PROPS = {
         "partial_missing": ["lifting of the generated-code theorems through the hand model for resize / resize_with / mini_vec![x; n] / extend_from_slice is by correspondence only"],
     },
     "C10": {"modules": ["MiniVecProof.Props.C10", "MiniVecProof.Props.C10IntoIter", "MiniVecProof.Props.C10DrainFilter", "MiniVecProof.Props.C10Splice", "MiniVecProof.Props.C06"],
-            "cases": lambda tier, seed: [("debug", corpus("debug", "C10") + iterator_cases(tier, seed, "debug") + lying_hint_cases("debug") + soak(tier, seed, "debug", "C10", n=12000)),
+            "cases": lambda tier, seed: [("debug", corpus("debug", "C10") + iterator_cases(tier, seed, "debug") + lying_hint_cases("debug") + iter_drop_panic_cases("debug") + soak(tier, seed, "debug", "C10", n=12000)),
                                          ("release", boundary_grid("release"))],
-            "owned_oracles": ["O vec-mismatch", "O view-mismatch", "X signal"], "owned_diffs": ["result", "contents", "ub", "crash", "panic"],
+            "owned_oracles": ["O vec-mismatch", "O view-mismatch", "iter-drop-outcome", "X signal"], "owned_diffs": ["result", "contents", "ub", "crash", "panic"],
             "partial_missing": ["proved for Drain on every storage state (C10_drain_partial): every interleaving of front/back steps yields what the list iterator over es[st..en] yields, exact counts, None for ever after the ends meet, vector untouched by steps, and drop leaves prefix ++ suffix destroying exactly the unyielded elements; proved for IntoIter on every storage state (C10_into_iter_partial): same protocol, exact len(), as_slice() = unyielded elements, drop destroys exactly those and frees the block with its layout; proved for DrainFilter with ANY predicate (C10_drain_filter_partial, C10_drain_filter_default): any number of next() calls yields the accepted elements in order, drop leaves exactly the rejected ones; proved for Splice with ANY replacement iterator (C10_splice_partial, C10_splice_default): steps are those of its embedded Drain, drop leaves prefix ++ (items before the first None) ++ suffix through every path of the drop guard (gap closed, tail moved up after growing); remaining: yielded sequences and counts checked against std's iterators and the model by correspondence only"]},
     "C11": {
         "modules": ["MiniVecProof.Props.C11"],
@@ -732,7 +854,7 @@ PROPS = {
         "owned_oracles": ["accept-predicate", "rejected-unchanged", "X signal"],
         "owned_diffs": ["panic", "result"],
     },
-    "C12": {"modules": ["MiniVecProof.Props.C12", "MiniVecProof.Props.C12IntoIter", "MiniVecProof.Props.C12CloneFrom"],
+    "C12": {"modules": ["MiniVecProof.Props.C12", "MiniVecProof.Props.C04Loops", "MiniVecProof.Props.C12IntoIter", "MiniVecProof.Props.C12CloneFrom"],
             "cases": lambda tier, seed: [("debug", corpus("debug", "C12") + clone_cases(tier, seed, "debug") + clone_panic_cases("debug") + soak(tier, seed, "debug", "C12"))],
             "owned_oracles": ["O ledger", "O alloc", "X signal", "O vec-mismatch"], "owned_diffs": ["own", "contents", "result", "alloc", "ub", "crash", "panic"],
             "partial_missing": ["proved: Clone for MiniVec returns a well-formed vector of value-equal clones in order with the source handle untouched, or stops in a sanctioned way (C12_clone_partial); IntoIter::as_slice (what IntoIter::clone copies) is exactly the unyielded elements (into_as_slice); IntoIter::clone after any steps builds a fresh vector of value-equal clones of exactly the unyielded elements with its own cursor, original untouched (C12_into_iter_clone_partial); clone_from (C12_clone_from_partial: self gets value-equal clones, its old elements destroyed once, source untouched; self untouched if cloning stops); independence under later mutation/drop in either order: correspondence with owning elements only (the model cannot share a block between two handles by construction)"]},
@@ -846,7 +968,7 @@ def correspondence(pid, tier, seed, model_ok=True):
                         found.append((o.split()[1] if o.startswith("O ") else o.split()[0] + "-" + "-".join(o.split()[1:3]), i, o))
                     elif o.startswith("O "):
                         other_oracles[" ".join(o.split()[:2])] += 1
-            for kind, i, textv in T.orchestrator_oracles(ops, SIZES.get(cls, 4), {"a32": 32, "a16": 16}.get(cls, 8)) + panic_prefix_oracle(ops, text):
+            for kind, i, textv in T.orchestrator_oracles(ops, SIZES.get(cls, 4), {"a32": 32, "a16": 16}.get(cls, 8)) + panic_prefix_oracle(ops, text) + iter_drop_oracle(ops, T.parse(m) if m else []):
                 if kind in P.get("owned_oracles", []):
                     found.append((kind, i, textv))
                 else:
